@@ -296,3 +296,23 @@ PROPS["C10"] = dict(
                "three direct solves on the coarsest level.",
     assumptions=["setup() with the combined extrapolation mode provides both smoothers and the level-1 right-hand side for all six cycle functions"],
 )
+
+PROPS["C13"] = dict(
+    harness="c13_reuse", flavour="rel",
+    quick=dict(workers=8, cases=160, min_nontrivial=40),
+    thorough=dict(workers=16, cases=6000, min_nontrivial=1000, budget_s=3000),
+    rule="Histories of 2-4 rounds over one GMGPolar object: each round applies a (re)drawn option set through the setters "
+         "(extrapolation 0/1/2/3 with the combined mode weighted up, FMG on/off with cycle and iteration count, cycle "
+         "type, smoothing steps, level cap, maxIterations, norm, tolerances, grid size, strategy), calls setup() when a "
+         "structural option changed (or at random otherwise) and solves once or twice (second solve without setup); 1 in 4 "
+         "histories is the convergence_order pattern (only divideBy2 grows). After every solve a fresh object with the "
+         "cumulative options is set up and solved; solution must be bit-identical (1 or 2 OpenMP threads), iteration count, "
+         "reduction factor and exact errors equal. Non-trivial: >=2 solves with a state-carrying feature (combined mode, FMG, "
+         "size change). Distinct: sequence of (setup?, mode, FMG, size, solves) + hash of the first option record.",
+    technique="stateful property-based testing (rapidcheck command histories) against a fresh-object reference model (differential)",
+    level_text="Model-based exploration of call histories on the public API: the reused object and a freshly constructed "
+               "one must agree bit for bit after every solve of a generated history. Exploration.",
+    level_note="Trusted: bitwise comparison is sound because runs use 1 or 2 OpenMP threads (two-term reductions are "
+               "order-independent); structural option changes are followed by setup() as the API documents.",
+    assumptions=["solve() without setup() is only generated when no structural option (grid, levels, strategy, extrapolation, FMG, threads) changed since the last setup()"],
+)
